@@ -1,8 +1,1081 @@
-//! C10 — not built yet.
+//! C10 — fast tape loading leaves the machine exactly as the ROM's LD-BYTES would.
+//! Real code, system level: a real `Emulator` with the embedded ROM and fast loading enabled; the
+//! CPU is placed at ROM 0x0556 with the request in A/F/IX/DE and a return address (breakpoint) on
+//! the stack. Component level: `Tap::next_block/next_block_byte` through the hook `verif_tape`.
+use crate::host::*;
 use crate::util::*;
+use rustzx_core::host::Tape;
+use rustzx_core::zx::verif_tape::{Tap, TapeImpl};
+use rustzx_core::EmulationStopReason;
+use rustzx_z80::RegName16;
+use std::panic::{catch_unwind, AssertUnwindSafe};
+use std::time::Duration;
 
-pub fn run(_o: &Opts) -> Report {
+pub const SP0: u16 = 0xFF40; // caller's SP after its CALL: return address on top
+pub const RET_ADDR: u16 = 0xFE00; // breakpoint
+const SCRATCH_LO: u16 = SP0 - 24; // the ROM's own stack use below the return address
+const SCRATCH_HI: u16 = SP0 + 2;
+
+#[derive(Clone, Debug, PartialEq)]
+pub enum Fill {
+    None,
+    Rand(u32, usize),
+    Bytes(Vec<u8>),
+}
+
+impl Fill {
+    pub fn bytes(&self) -> Vec<u8> {
+        match self {
+            Fill::None => vec![],
+            Fill::Rand(seed, n) => {
+                let mut r = Rng::new(*seed as u64);
+                r.bytes(*n)
+            }
+            Fill::Bytes(b) => b.clone(),
+        }
+    }
+    fn text(&self) -> String {
+        match self {
+            Fill::None => "-".into(),
+            Fill::Rand(s, n) => format!("r:{:x}:{:x}", s, n),
+            Fill::Bytes(b) => {
+                if b.is_empty() {
+                    "-".into()
+                } else {
+                    format!("h:{}", hex(b))
+                }
+            }
+        }
+    }
+    fn parse(s: &str) -> Fill {
+        if let Some(rest) = s.strip_prefix("r:") {
+            let mut it = rest.split(':');
+            let seed = u32::from_str_radix(it.next().unwrap_or("0"), 16).unwrap_or(0);
+            let n = usize::from_str_radix(it.next().unwrap_or("0"), 16).unwrap_or(0);
+            Fill::Rand(seed, n)
+        } else if let Some(h) = s.strip_prefix("h:") {
+            Fill::Bytes(unhex(h))
+        } else {
+            Fill::None
+        }
+    }
+}
+
+#[derive(Clone, Debug, PartialEq)]
+pub struct Req {
+    pub a: u8,
+    pub load: bool,
+    pub ix: u16,
+    pub de: u16,
+    pub fill: Fill,
+}
+
+#[derive(Clone, Debug, PartialEq)]
+pub struct Case {
+    pub m128: bool,
+    pub tape: Vec<u8>,
+    pub reqs: Vec<Req>,
+}
+
+pub fn case_text(c: &Case) -> String {
+    let mut s = format!(
+        "m128={} tape={}",
+        if c.m128 { 1 } else { 0 },
+        if c.tape.is_empty() { "-".to_string() } else { hex(&c.tape) }
+    );
+    for r in &c.reqs {
+        s.push_str(&format!(
+            " ; req {:02x} {} {:04x} {:04x} {}",
+            r.a,
+            if r.load { 1 } else { 0 },
+            r.ix,
+            r.de,
+            r.fill.text()
+        ));
+    }
+    s
+}
+
+pub fn parse_case(s: &str) -> Case {
+    let mut parts = s.split(';').map(|x| x.trim());
+    let head = parts.next().unwrap_or("");
+    let mut m128 = false;
+    let mut tape = vec![];
+    for kv in head.split_whitespace() {
+        if kv == "m128=1" {
+            m128 = true;
+        }
+        if let Some(h) = kv.strip_prefix("tape=") {
+            if h != "-" {
+                tape = unhex(h);
+            }
+        }
+    }
+    let mut reqs = vec![];
+    for p in parts {
+        let t: Vec<&str> = p.split_whitespace().collect();
+        if t.len() == 6 && t[0] == "req" {
+            reqs.push(Req {
+                a: u8::from_str_radix(t[1], 16).unwrap_or(0),
+                load: t[2] == "1",
+                ix: u16::from_str_radix(t[3], 16).unwrap_or(0),
+                de: u16::from_str_radix(t[4], 16).unwrap_or(0),
+                fill: Fill::parse(t[5]),
+            });
+        }
+    }
+    Case { m128, tape, reqs }
+}
+
+/// splits a TAP image the way the harness' generator thinks of it (only used to size windows)
+fn max_block_len(tape: &[u8]) -> usize {
+    let mut p = 0;
+    let mut m = 0;
+    while p + 2 <= tape.len() {
+        let n = tape[p] as usize + 256 * tape[p + 1] as usize;
+        m = m.max(n);
+        p += 2 + n;
+    }
+    m
+}
+
+#[derive(Clone, Debug, PartialEq)]
+pub struct Obs {
+    pub outcome: String, // ret1 | ret0 | loops | err:<e> | panic
+    pub ix: u16,
+    pub de: u16,
+    pub win: Vec<u8>,
+    pub stray: Option<(u16, u8, u8)>, // memory outside window and scratch changed
+}
+
+pub fn new_emu(m128: bool, tape: &[u8], fastload: bool) -> Emu {
+    let mut c = Cfg::new(m128);
+    c.rom = true;
+    c.fastload = fastload;
+    let mut e = emu(&c);
+    if m128 {
+        // page the 48K BASIC ROM (ROM 1) in, as the 128K does when it enters 48K BASIC/tape loader
+        e.verif_write_io(0x7FFD, 0x10);
+    }
+    let mut d = Dbg::default();
+    d.bps.insert(RET_ADDR);
+    e.set_debug_interface(d);
+    let _ = e.load_tape(Tape::Tap(VAsset::new(tape.to_vec())));
+    e
+}
+
+pub fn window_span(de: u16, maxblk: usize) -> usize {
+    (de as usize).min(maxblk) + 1
+}
+
+fn in_scratch(a: u16) -> bool {
+    a >= SCRATCH_LO && a < SCRATCH_HI
+}
+
+/// Places the CPU at the entry of LD-BYTES as a CALL 0x0556 from `RET_ADDR - 3` would.
+pub fn setup_call(e: &mut Emu, r: &Req, f_other: u8, settle: bool) {
+    e.verif_write_mem(SP0, (RET_ADDR & 0xFF) as u8, 0);
+    e.verif_write_mem(SP0 + 1, (RET_ADDR >> 8) as u8, 0);
+    // keep the few instructions around the trap away from the INT window at the frame start (the
+    // ROM's EI just before returning would let the interrupt routine touch FRAMES); time only moves
+    // forward, and only while the tape is not being played in real time
+    if settle {
+        let fc = e.verif_frame_clocks();
+        if fc > 60000 || fc < 64 {
+            e.verif_wait(12000);
+        }
+    }
+    let cpu = e.verif_cpu();
+    cpu.regs.set_acc(r.a);
+    cpu.regs.set_flags((f_other & 0xFE) | if r.load { 1 } else { 0 });
+    cpu.regs.set_reg_16(RegName16::IX, r.ix);
+    cpu.regs.set_de(r.de);
+    cpu.regs.set_sp(SP0);
+    cpu.regs.set_pc(0x0556);
+    cpu.regs.set_iff1(false);
+    cpu.regs.set_iff2(false);
+    cpu.halted = false;
+    cpu.skip_interrupt = false;
+}
+
+/// Runs until the breakpoint at the return address or for `frames` frames.
+pub fn run_until_return(e: &mut Emu, frames: usize) -> String {
+    for _ in 0..frames {
+        let res = catch_unwind(AssertUnwindSafe(|| e.emulate_frames(Duration::from_secs(3600))));
+        match res {
+            Err(_) => return "panic".into(),
+            Ok(Err(err)) => {
+                let s = format!("{:?}", err);
+                return if s.contains("UnexpectedEof") {
+                    "err:eof".into()
+                } else if s.contains("InvalidTapFile") {
+                    "err:invalid".into()
+                } else {
+                    format!("err:{}", s.replace(' ', ""))
+                };
+            }
+            Ok(Ok(info)) => {
+                if info.stop_reason == EmulationStopReason::Breakpoint {
+                    let f = e.verif_cpu().regs.get_flags();
+                    return if f & 1 != 0 { "ret1".into() } else { "ret0".into() };
+                }
+            }
+        }
+    }
+    "loops".into()
+}
+
+fn snapshot(e: &Emu) -> Vec<u8> {
+    (0..=0xFFFFu16).map(|a| e.peek(a)).collect()
+}
+
+/// One request against the real emulator. Returns (window before, observation).
+fn real_request(e: &mut Emu, r: &Req, span: usize, f_other: u8) -> (Vec<u8>, Obs) {
+    for (i, b) in r.fill.bytes().iter().enumerate() {
+        let a = r.ix.wrapping_add(i as u16);
+        if !in_scratch(a) {
+            e.verif_write_mem(a, *b, 0);
+        }
+    }
+    setup_call(e, r, f_other, true);
+    let before = snapshot(e);
+    let win_before: Vec<u8> = (0..span).map(|i| before[r.ix.wrapping_add(i as u16) as usize]).collect();
+    let outcome = run_until_return(e, 2);
+    let after = snapshot(e);
+    let win: Vec<u8> = (0..span).map(|i| after[r.ix.wrapping_add(i as u16) as usize]).collect();
+    let mut stray = None;
+    for a in 0..=0xFFFFu16 {
+        let off = a.wrapping_sub(r.ix) as usize;
+        if off < span || in_scratch(a) {
+            continue;
+        }
+        if before[a as usize] != after[a as usize] {
+            stray = Some((a, before[a as usize], after[a as usize]));
+            break;
+        }
+    }
+    let cpu = e.verif_cpu();
+    let obs = Obs {
+        outcome,
+        ix: cpu.regs.get_reg_16(RegName16::IX),
+        de: cpu.regs.get_de(),
+        win,
+        stray,
+    };
+    (win_before, obs)
+}
+
+#[derive(Clone, Debug)]
+pub struct Dis {
+    pub kind: Kind,
+    pub key: String,
+    pub what: String,
+    pub implementation: String,
+    pub expected: String,
+    pub at: usize,
+}
+
+fn hex_or_dash(b: &[u8]) -> String {
+    if b.is_empty() {
+        "-".into()
+    } else {
+        hex(b)
+    }
+}
+
+fn short(b: &[u8]) -> String {
+    if b.len() <= 24 {
+        hex_or_dash(b)
+    } else {
+        format!("{}..({} bytes)", hex(&b[..24]), b.len())
+    }
+}
+
+struct Side {
+    outcome: String,
+    ix: u16,
+    de: u16,
+    win: Vec<u8>,
+}
+
+fn parse_sides(ans: &str) -> (Side, Option<Side>) {
+    // M <o> <ix> <de> <win> S <o> <ix> <de> <win>   |   ... S undecided
+    let t: Vec<&str> = ans.split(' ').collect();
+    let side = |k: usize| Side {
+        outcome: t[k].to_string(),
+        ix: u16::from_str_radix(t[k + 1], 16).unwrap(),
+        de: u16::from_str_radix(t[k + 2], 16).unwrap(),
+        win: if t[k + 3] == "-" { vec![] } else { unhex(t[k + 3]) },
+    };
+    assert!(t.len() >= 7 && t[0] == "M" && t[5] == "S", "driver answer: {}", ans);
+    let m = side(1);
+    let s = if t[6] == "undecided" { None } else { Some(side(6)) };
+    (m, s)
+}
+
+fn diff_field(o: &Obs, s: &Side) -> Option<(&'static str, String, String)> {
+    if o.outcome != s.outcome {
+        return Some(("outcome", o.outcome.clone(), s.outcome.clone()));
+    }
+    if o.win != s.win {
+        let k = o.win.iter().zip(s.win.iter()).position(|(a, b)| a != b).unwrap_or(0);
+        return Some((
+            "mem",
+            format!("byte {} of the destination = {:02x}", k, o.win.get(k).copied().unwrap_or(0)),
+            format!("{:02x}", s.win.get(k).copied().unwrap_or(0)),
+        ));
+    }
+    if o.ix != s.ix {
+        return Some(("ix", format!("{:04x}", o.ix), format!("{:04x}", s.ix)));
+    }
+    if o.de != s.de {
+        return Some(("de", format!("{:04x}", o.de), format!("{:04x}", s.de)));
+    }
+    None
+}
+
+/// Detects which variant of fast_load_tap the tree implements: false = AF swapped before the
+/// tape is asked for a block (the code as found), true = block requested first (C10-1.diff).
+pub fn detect_variant() -> bool {
+    let mut e = new_emu(false, &[], true);
+    let r = Req { a: 0xFF, load: true, ix: 0x8000, de: 0x0010, fill: Fill::None };
+    setup_call(&mut e, &r, 0, true);
+    run_until_return(&mut e, 2) == "loops"
+}
+
+/// Runs a case on a fresh emulator and a fresh model; returns the first disagreement.
+pub fn run_case(model: &mut Model, fixed: bool, c: &Case, mut rep: Option<&mut Report>) -> Option<Dis> {
+    let mut e = new_emu(c.m128, &c.tape, true);
+    let maxblk = max_block_len(&c.tape);
+    let a0 = model.ask(&format!("variant {}", if fixed { 1 } else { 0 }));
+    assert_eq!(a0, "ok");
+    let a1 = model.ask(&format!("tape {}", hex_or_dash(&c.tape)));
+    assert!(a1.starts_with("ok"), "driver: {}", a1);
+    let mut frng = Rng::new(c.tape.len() as u64 ^ 0xC10);
+    for (i, r) in c.reqs.iter().enumerate() {
+        let span = window_span(r.de, maxblk);
+        let (wb, obs) = real_request(&mut e, r, span, frng.u8());
+        let ans = model.ask(&format!(
+            "req {:02x} {} {:04x} {:04x} {:04x} {}",
+            r.a,
+            if r.load { 1 } else { 0 },
+            r.ix,
+            r.de,
+            SP0,
+            hex_or_dash(&wb)
+        ));
+        let (m, s) = parse_sides(&ans);
+        if let Some(rp) = rep.as_deref_mut() {
+            rp.eval();
+            rp.count("outcome", obs.outcome.clone());
+            let moved = obs.ix.wrapping_sub(r.ix);
+            let cls = format!(
+                "{} {} flagchk={} de={} moved={} rom={} wrap={}",
+                obs.outcome,
+                if r.load { "load" } else { "verify" },
+                r.de >> 8 != 0xFF,
+                match r.de { 0 => "0", 1 => "1", _ => "n" },
+                match moved { 0 => "0".to_string(), 1..=127 => "<128".into(), 128 => "128".into(), 129..=255 => "<256".into(), 256 => "256".into(), _ => ">256".into() },
+                r.ix < 0x4000,
+                (r.ix as usize + moved as usize) > 0xFFFF,
+            );
+            if obs.outcome.starts_with("ret") {
+                rp.class(cls);
+            }
+        }
+        if let Some((a, b, n)) = obs.stray {
+            return Some(Dis {
+                kind: if s.is_some() { Kind::SpecViolated } else { Kind::ModelMismatch },
+                key: "C10/stray-write".into(),
+                what: format!("request {} changed memory outside the destination: {:04x}: {:02x} -> {:02x}", i, a, b, n),
+                implementation: format!("{:04x}={:02x}", a, n),
+                expected: format!("{:04x}={:02x}", a, b),
+                at: i,
+            });
+        }
+        if let Some(s) = &s {
+            if let Some((field, got, want)) = diff_field(&obs, s) {
+                let key = if s.outcome == "loops" && obs.outcome == "ret1" {
+                    "C10/end-of-tape/success-reported".to_string()
+                } else if s.outcome == "loops" && obs.outcome == "ret0" {
+                    "C10/end-of-tape/request-completed".to_string()
+                } else if s.outcome == "loops" {
+                    format!("C10/end-of-tape/{}", field)
+                } else {
+                    format!("C10/{}", field)
+                };
+                return Some(Dis {
+                    kind: Kind::SpecViolated,
+                    key,
+                    what: format!(
+                        "request {} (A={:02x} {} IX={:04x} DE={:04x}): {} is {} but LD-BYTES gives {}",
+                        i, r.a, if r.load { "LOAD" } else { "VERIFY" }, r.ix, r.de, field, got, want
+                    ),
+                    implementation: format!("{} ix={:04x} de={:04x} mem={}", obs.outcome, obs.ix, obs.de, short(&obs.win)),
+                    expected: format!("{} ix={:04x} de={:04x} mem={}", s.outcome, s.ix, s.de, short(&s.win)),
+                    at: i,
+                });
+            }
+        }
+        if let Some((field, got, want)) = diff_field(&obs, &m) {
+            return Some(Dis {
+                kind: Kind::ModelMismatch,
+                key: format!("C10/model/{}", field),
+                what: format!(
+                    "request {} (A={:02x} {} IX={:04x} DE={:04x}): {} is {} but the Lean model gives {}",
+                    i, r.a, if r.load { "LOAD" } else { "VERIFY" }, r.ix, r.de, field, got, want
+                ),
+                implementation: format!("{} ix={:04x} de={:04x} mem={}", obs.outcome, obs.ix, obs.de, short(&obs.win)),
+                expected: format!("{} ix={:04x} de={:04x} mem={}", m.outcome, m.ix, m.de, short(&m.win)),
+                at: i,
+            });
+        }
+    }
+    None
+}
+
+// ---------------------------------------------------------------- generation
+
+pub const BOUNDARY_LENS: [usize; 20] = [
+    0, 1, 2, 3, 19, 127, 128, 129, 130, 255, 256, 257, 258, 300, 383, 384, 385, 386, 512, 513,
+];
+
+pub struct GenBlock {
+    pub payload: Vec<u8>,
+}
+
+/// A block of total length `len` (flag + data + checksum when len >= 2).
+pub fn gen_block(rng: &mut Rng, len: usize) -> Vec<u8> {
+    if len == 0 {
+        return vec![];
+    }
+    let flag = match rng.below(6) {
+        0 | 1 => 0x00,
+        2 | 3 => 0xFF,
+        _ => rng.u8(),
+    };
+    let mut b = vec![flag];
+    if len == 1 {
+        return b;
+    }
+    for _ in 0..len - 2 {
+        b.push(rng.u8());
+    }
+    let mut x = 0u8;
+    for v in &b {
+        x ^= v;
+    }
+    if rng.chance(1, 6) {
+        x ^= 1 << rng.below(8); // wrong checksum
+    }
+    b.push(x);
+    b
+}
+
+pub fn gen_len(rng: &mut Rng, thorough: bool) -> usize {
+    match rng.below(20) {
+        0..=9 => *rng.pick(&BOUNDARY_LENS),
+        10..=16 => rng.range(2, 40) as usize,
+        17 | 18 => rng.range(100, 700) as usize,
+        _ => {
+            if thorough && rng.chance(1, 10) {
+                *rng.pick(&[65535usize, 65534, 32768, 16385])
+            } else {
+                rng.range(700, 3000) as usize
+            }
+        }
+    }
+}
+
+pub fn gen_tape(rng: &mut Rng, thorough: bool) -> (Vec<u8>, Vec<Vec<u8>>) {
+    let nblocks = match rng.below(10) {
+        0 => 0,
+        1 | 2 => 1,
+        _ => rng.range(2, 6),
+    } as usize;
+    let mut tape = vec![];
+    let mut blocks = vec![];
+    for _ in 0..nblocks {
+        let len = gen_len(rng, thorough);
+        let b = gen_block(rng, len);
+        tape.push((b.len() & 0xFF) as u8);
+        tape.push((b.len() >> 8) as u8);
+        tape.extend_from_slice(&b);
+        blocks.push(b);
+    }
+    match rng.below(10) {
+        0 => tape.push(rng.u8()), // stray byte
+        1 => {
+            // truncated block: header promises more than is there
+            let promised = rng.range(1, 400) as usize;
+            let present = rng.below(promised as u64) as usize;
+            tape.push((promised & 0xFF) as u8);
+            tape.push((promised >> 8) as u8);
+            tape.extend(rng.bytes(present));
+        }
+        _ => {}
+    }
+    (tape, blocks)
+}
+
+fn gen_ix(rng: &mut Rng, span: usize) -> u16 {
+    let ix = match rng.below(12) {
+        0 => rng.range(0, 0x3F00) as u16,                       // into ROM
+        1 => (0x4000 - rng.range(1, 40) as i32) as u16,         // crossing ROM -> RAM
+        2 => (0x10000 - rng.range(1, 40) as i64) as u16,        // wrapping past 0xFFFF
+        3 => 0x4000,
+        _ => rng.range(0x4000, 0xF000) as u16,
+    };
+    // keep the destination clear of the stack scratch area (the ROM's own pushes would show up in it)
+    if clashes(ix, span) {
+        // directly above the scratch area; wraps through ROM and RAM and ends below it (span is capped by gen_req)
+        let alt = if clashes(0x8000, span) { SCRATCH_HI } else { 0x8000 };
+        debug_assert!(!clashes(alt, span));
+        alt
+    } else {
+        ix
+    }
+}
+
+/// does [ix, ix+span+2) (mod 64K) touch the stack scratch area?
+fn clashes(ix: u16, span: usize) -> bool {
+    (SCRATCH_LO..SCRATCH_HI).any(|a| (a.wrapping_sub(ix) as usize) < span + 2)
+}
+
+/// largest destination span that still leaves the scratch area alone
+const MAX_SPAN: usize = 0x10000 - (SCRATCH_HI - SCRATCH_LO) as usize - 4;
+
+pub fn gen_req(rng: &mut Rng, block: Option<&Vec<u8>>, maxblk: usize) -> Req {
+    let blen = block.map(|b| b.len()).unwrap_or(0);
+    let flag = block.and_then(|b| b.first().copied()).unwrap_or(0xFF);
+    let a = if rng.chance(5, 6) { flag } else { rng.u8() };
+    let load = rng.chance(3, 5);
+    let matching = blen.saturating_sub(2) as u16;
+    let de = match rng.below(14) {
+        0 => 0,
+        1 => 1,
+        2 => matching.wrapping_add(1),
+        3 => matching.saturating_sub(1),
+        4 => matching.wrapping_add(rng.range(2, 300) as u16),
+        5 => 0xFF00 | rng.u8() as u16, // D = 0xFF: no flag check
+        6 => rng.range(0, 600) as u16,
+        7 => blen as u16,
+        _ => matching,
+    };
+    // a destination of (nearly) 64 K cannot avoid the caller's stack: shorten such requests
+    let de = if window_span(de, maxblk) > MAX_SPAN {
+        if de >> 8 == 0xFF { 0xFF00 | (de & 0x3F) } else { (MAX_SPAN - 1) as u16 }
+    } else {
+        de
+    };
+    let span = window_span(de, maxblk);
+    let ix = gen_ix(rng, span);
+    let fill = if load {
+        if rng.bool() { Fill::Rand(rng.next() as u32, span.min(600)) } else { Fill::None }
+    } else {
+        // VERIFY: memory holds the block's data (flag stripped unless D=0xFF), sometimes one byte off
+        let mut data: Vec<u8> = match block {
+            Some(b) if !b.is_empty() => {
+                if de >> 8 == 0xFF { b.clone() } else { b[1..].to_vec() }
+            }
+            _ => vec![],
+        };
+        data.truncate(span);
+        if !data.is_empty() && rng.chance(1, 3) {
+            let k = rng.below(data.len() as u64) as usize;
+            data[k] ^= 1 << rng.below(8);
+        }
+        if rng.chance(1, 8) { Fill::Rand(rng.next() as u32, span.min(64)) } else { Fill::Bytes(data) }
+    };
+    Req { a, load, ix, de, fill }
+}
+
+pub fn gen_case(rng: &mut Rng, thorough: bool) -> Case {
+    let (tape, blocks) = gen_tape(rng, thorough);
+    let maxblk = max_block_len(&tape);
+    let extra = rng.range(0, 2) as usize;
+    let mut reqs = vec![];
+    for i in 0..blocks.len() + extra {
+        reqs.push(gen_req(rng, blocks.get(i), maxblk));
+    }
+    if reqs.is_empty() {
+        reqs.push(gen_req(rng, None, maxblk));
+    }
+    Case { m128: rng.chance(1, 4), tape, reqs }
+}
+
+// ---------------------------------------------------------------- shrinking
+
+fn reencode(blocks: &[Vec<u8>], tail: &[u8]) -> Vec<u8> {
+    let mut t = vec![];
+    for b in blocks {
+        t.push((b.len() & 0xFF) as u8);
+        t.push((b.len() >> 8) as u8);
+        t.extend_from_slice(b);
+    }
+    t.extend_from_slice(tail);
+    t
+}
+
+fn split_tape(tape: &[u8]) -> (Vec<Vec<u8>>, Vec<u8>) {
+    let mut p = 0;
+    let mut blocks = vec![];
+    while p + 2 <= tape.len() {
+        let n = tape[p] as usize + 256 * tape[p + 1] as usize;
+        if p + 2 + n > tape.len() {
+            break;
+        }
+        blocks.push(tape[p + 2..p + 2 + n].to_vec());
+        p += 2 + n;
+    }
+    (blocks, tape[p..].to_vec())
+}
+
+fn candidates(c: &Case) -> Vec<Case> {
+    let mut out = vec![];
+    // cut requests after / drop single requests
+    for n in 1..c.reqs.len() {
+        let mut d = c.clone();
+        d.reqs.truncate(n);
+        out.push(d);
+    }
+    for i in 0..c.reqs.len() {
+        if c.reqs.len() > 1 {
+            let mut d = c.clone();
+            d.reqs.remove(i);
+            out.push(d);
+        }
+    }
+    let (blocks, tail) = split_tape(&c.tape);
+    if !tail.is_empty() {
+        let mut d = c.clone();
+        d.tape = reencode(&blocks, &[]);
+        out.push(d);
+    }
+    for i in 0..blocks.len() {
+        let mut b = blocks.clone();
+        b.remove(i);
+        let mut d = c.clone();
+        d.tape = reencode(&b, &tail);
+        out.push(d.clone());
+        // with the matching request
+        if i < c.reqs.len() && c.reqs.len() > 1 {
+            let mut d2 = d.clone();
+            d2.reqs.remove(i);
+            out.push(d2);
+        }
+        if blocks[i].len() > 1 {
+            for newlen in [blocks[i].len() / 2, blocks[i].len() - 1, 1, 0] {
+                let mut b = blocks.clone();
+                b[i].truncate(newlen);
+                let mut d = c.clone();
+                d.tape = reencode(&b, &tail);
+                out.push(d);
+            }
+        }
+        if blocks[i].iter().any(|v| *v != 0) {
+            let mut b = blocks.clone();
+            for v in b[i].iter_mut() {
+                *v = 0;
+            }
+            let mut d = c.clone();
+            d.tape = reencode(&b, &tail);
+            out.push(d);
+        }
+    }
+    if c.m128 {
+        let mut d = c.clone();
+        d.m128 = false;
+        out.push(d);
+    }
+    for i in 0..c.reqs.len() {
+        let r = &c.reqs[i];
+        let mut alts: Vec<Req> = vec![];
+        if r.fill != Fill::None {
+            alts.push(Req { fill: Fill::None, ..r.clone() });
+        }
+        if r.ix != 0x8000 {
+            alts.push(Req { ix: 0x8000, ..r.clone() });
+        }
+        if r.de > 0 {
+            alts.push(Req { de: r.de / 2, ..r.clone() });
+            alts.push(Req { de: r.de - 1, ..r.clone() });
+        }
+        if r.a != 0 && r.a != 0xFF {
+            alts.push(Req { a: 0xFF, ..r.clone() });
+            alts.push(Req { a: 0, ..r.clone() });
+        }
+        if !r.load {
+            alts.push(Req { load: true, ..r.clone() });
+        }
+        for a in alts {
+            let mut d = c.clone();
+            d.reqs[i] = a;
+            out.push(d);
+        }
+    }
+    out
+}
+
+pub fn shrink(model: &mut Model, fixed: bool, c: &Case, key: &str) -> Case {
+    let mut cur = c.clone();
+    let mut budget = 400;
+    'outer: loop {
+        for cand in candidates(&cur) {
+            if budget == 0 {
+                break 'outer;
+            }
+            budget -= 1;
+            if let Some(d) = run_case(model, fixed, &cand, None) {
+                if d.key == key {
+                    cur = cand;
+                    continue 'outer;
+                }
+            }
+        }
+        break;
+    }
+    cur
+}
+
+fn report_failure(model: &mut Model, rep: &mut Report, fixed: bool, c: &Case, d: Dis) {
+    if rep.has_key(&d.key) {
+        rep.count("repeat_violations", d.key.clone());
+        return;
+    }
+    let small = shrink(model, fixed, c, &d.key);
+    let d2 = run_case(model, fixed, &small, None).unwrap_or(d);
+    rep.violation(Violation {
+        kind: d2.kind,
+        key: d2.key.clone(),
+        what: format!("{} [case: {}]", d2.what, truncate_text(&case_text(&small), 300)),
+        correspondence: "corr.C10.fastload (Model.Tape.sysCall/fastLoadTap/nextBlock vs Emulator + fast_load_tap + Tap)".into(),
+        case: J::obj(vec![("text", J::s(case_text(&small)))]),
+        implementation: d2.implementation.clone(),
+        expected: d2.expected.clone(),
+    });
+}
+
+pub fn truncate_text(s: &str, n: usize) -> String {
+    if s.len() <= n {
+        s.to_string()
+    } else {
+        format!("{}…", &s[..n])
+    }
+}
+
+// ---------------------------------------------------------------- component level
+
+/// Random interleavings of next_block / next_block_byte on the real `Tap` against the model and
+/// the block-list spec. Returns a description of the first disagreement.
+fn component_case(model: &mut Model, tape: &[u8], ops: &[(bool, usize)], chunk: usize, eof_zero: bool, rep: Option<&mut Report>) -> Option<Dis> {
+    let mut asset = VAsset::new(tape.to_vec());
+    asset.max_chunk = chunk;
+    asset.eof_zero = eof_zero;
+    let mut tap = match Tap::from_asset(asset) {
+        Ok(t) => t,
+        Err(_) => return None,
+    };
+    let mut lines = vec![format!("tape {}", hex_or_dash(tape))];
+    let mut impls = vec![];
+    for (is_nb, n) in ops {
+        if *is_nb {
+            lines.push("nb".into());
+            let r = catch_unwind(AssertUnwindSafe(|| tap.next_block()));
+            impls.push(match r {
+                Err(_) => "panic".to_string(),
+                Ok(Ok(b)) => format!("{}", b),
+                Ok(Err(e)) => err_name(&format!("{:?}", e)),
+            });
+        } else {
+            lines.push(format!("nbb {:x}", n));
+            let mut bytes = vec![];
+            let mut st = "more".to_string();
+            for _ in 0..*n {
+                let r = catch_unwind(AssertUnwindSafe(|| tap.next_block_byte()));
+                match r {
+                    Err(_) => {
+                        st = "panic".into();
+                        break;
+                    }
+                    Ok(Ok(Some(b))) => bytes.push(b),
+                    Ok(Ok(None)) => {
+                        st = "none".into();
+                        break;
+                    }
+                    Ok(Err(e)) => {
+                        st = err_name(&format!("{:?}", e));
+                        break;
+                    }
+                }
+            }
+            impls.push(format!("{} {}", hex_or_dash(&bytes), st));
+        }
+    }
+    let answers = model.ask_many(&lines);
+    let mut rep = rep;
+    for (k, got) in impls.iter().enumerate() {
+        let ans = &answers[k + 1];
+        let (m, s) = ans[2..].split_once(" S ").unwrap_or((ans, "undecided"));
+        if let Some(r) = rep.as_deref_mut() {
+            r.eval();
+            r.count("component_ops", if ops[k].0 { "next_block" } else { "next_block_byte xN" });
+        }
+        let opname = if ops[k].0 { "next_block".to_string() } else { format!("next_block_byte x{}", ops[k].1) };
+        if s != "undecided" && got != s {
+            return Some(Dis {
+                kind: Kind::SpecViolated,
+                key: format!("C10/stream/{}", if ops[k].0 { "next_block" } else { "bytes" }),
+                what: format!("operation {} ({}) returned {} but the tape's blocks give {}", k, opname, truncate_text(got, 80), truncate_text(s, 80)),
+                implementation: got.clone(),
+                expected: s.to_string(),
+                at: k,
+            });
+        }
+        if got != m {
+            return Some(Dis {
+                kind: Kind::ModelMismatch,
+                key: format!("C10/model/stream/{}", if ops[k].0 { "next_block" } else { "bytes" }),
+                what: format!("operation {} ({}) returned {} but the Lean model gives {}", k, opname, truncate_text(got, 80), truncate_text(m, 80)),
+                implementation: got.clone(),
+                expected: m.to_string(),
+                at: k,
+            });
+        }
+    }
+    None
+}
+
+pub fn err_name(s: &str) -> String {
+    if s.contains("UnexpectedEof") {
+        "err:eof".into()
+    } else if s.contains("InvalidTapFile") {
+        "err:invalid".into()
+    } else {
+        format!("err:{}", s.replace(' ', ""))
+    }
+}
+
+fn comp_text(tape: &[u8], ops: &[(bool, usize)], chunk: usize, eof_zero: bool) -> String {
+    let mut s = format!("component chunk={} eofzero={} tape={}", chunk, if eof_zero { 1 } else { 0 }, hex_or_dash(tape));
+    for (nb, n) in ops {
+        if *nb {
+            s.push_str(" ; nb");
+        } else {
+            s.push_str(&format!(" ; nbb {:x}", n));
+        }
+    }
+    s
+}
+
+fn parse_comp(s: &str) -> (Vec<u8>, Vec<(bool, usize)>, usize, bool) {
+    let mut parts = s.split(';').map(|x| x.trim());
+    let head = parts.next().unwrap_or("");
+    let mut tape = vec![];
+    let mut chunk = 0;
+    let mut eofz = false;
+    for kv in head.split_whitespace() {
+        if let Some(h) = kv.strip_prefix("tape=") {
+            if h != "-" {
+                tape = unhex(h);
+            }
+        }
+        if let Some(h) = kv.strip_prefix("chunk=") {
+            chunk = h.parse().unwrap_or(0);
+        }
+        if kv == "eofzero=1" {
+            eofz = true;
+        }
+    }
+    let mut ops = vec![];
+    for p in parts {
+        if p == "nb" {
+            ops.push((true, 0));
+        } else if let Some(n) = p.strip_prefix("nbb ") {
+            ops.push((false, usize::from_str_radix(n.trim(), 16).unwrap_or(0)));
+        }
+    }
+    (tape, ops, chunk, eofz)
+}
+
+fn report_comp_failure(model: &mut Model, rep: &mut Report, tape: &[u8], ops: &[(bool, usize)], chunk: usize, eofz: bool, d: Dis) {
+    if rep.has_key(&d.key) {
+        rep.count("repeat_violations", d.key.clone());
+        return;
+    }
+    // shrink: cut after the failing op, drop ops, drop/shorten blocks
+    let mut cur_t = tape.to_vec();
+    let mut cur_o = ops[..=d.at.min(ops.len() - 1)].to_vec();
+    let mut budget = 300;
+    let fails = |model: &mut Model, t: &[u8], o: &[(bool, usize)]| {
+        matches!(component_case(model, t, o, chunk, eofz, None), Some(ref x) if x.key == d.key)
+    };
+    loop {
+        let mut changed = false;
+        for i in 0..cur_o.len() {
+            if cur_o.len() > 1 && budget > 0 {
+                budget -= 1;
+                let mut o = cur_o.clone();
+                o.remove(i);
+                if fails(model, &cur_t, &o) {
+                    cur_o = o;
+                    changed = true;
+                    break;
+                }
+            }
+        }
+        if !changed {
+            let (blocks, tail) = split_tape(&cur_t);
+            'b: for i in 0..blocks.len() {
+                for newlen in [0usize, 1, blocks[i].len() / 2, blocks[i].len().saturating_sub(1)] {
+                    if newlen < blocks[i].len() && budget > 0 {
+                        budget -= 1;
+                        let mut b = blocks.clone();
+                        b[i].truncate(newlen);
+                        let t = reencode(&b, &tail);
+                        if fails(model, &t, &cur_o) {
+                            cur_t = t;
+                            changed = true;
+                            break 'b;
+                        }
+                    }
+                }
+            }
+        }
+        if !changed || budget == 0 {
+            break;
+        }
+    }
+    let d2 = component_case(model, &cur_t, &cur_o, chunk, eofz, None).unwrap_or(d);
+    let text = comp_text(&cur_t, &cur_o, chunk, eofz);
+    rep.violation(Violation {
+        kind: d2.kind,
+        key: d2.key.clone(),
+        what: format!("{} [case: {}]", d2.what, truncate_text(&text, 300)),
+        correspondence: "corr.C10.stream (Model.Tape.nextBlock/nextBlockByte vs Tap::next_block/next_block_byte)".into(),
+        case: J::obj(vec![("text", J::s(text))]),
+        implementation: d2.implementation.clone(),
+        expected: d2.expected.clone(),
+    });
+}
+
+pub fn run(o: &Opts) -> Report {
     let mut rep = Report::new("C10");
-    rep.notes.push("not built yet".into());
+    rep.rule = "system level: random TAP images (0-6 blocks; lengths from {0,1,2,3,19,127,128,129,130,255,256,257,258,300,383..386,512,513}, \
+random short, 100-3000, thorough also 16385..65535; good and bad checksums; optional stray byte or truncated last block) loaded into a real \
+Emulator (48K, a quarter 128K with ROM1 paged) with the embedded ROM and fast loading on; per tape one request per block plus 0-2 past the \
+end, each a call of ROM 0x0556 (LOAD/VERIFY, matching or wrong flag, DE = matching/0/1/short/long/block length/0xFFxx, IX in RAM, in ROM, \
+crossing 0x4000, wrapping 0xFFFF; VERIFY with equal or one-bit-off memory); observed: returned-with-carry / not returned within 2 frames / error, \
+IX, DE, destination bytes, every other memory byte. Component level: random interleavings of next_block and runs of next_block_byte on \
+Tap<VAsset> (short reads, both EOF conventions). distinct/non-trivial = distinct (outcome, load|verify, flag checked, DE class, bytes moved \
+class, IX in ROM, wrapped) of requests that returned to the caller"
+        .into();
+    let mut model = Model::spawn(&o.model, "C10");
+    let fixed = detect_variant();
+    rep.extra.push(("tree_variant".into(), J::s(if fixed { "block requested before AF swap (C10-1 repair present)" } else { "AF swapped before next_block (code as found)" })));
+
+    if let Some(text) = &o.replay {
+        rep.sample(J::s(truncate_text(text, 400)));
+        if text.starts_with("component") {
+            let (tape, ops, chunk, eofz) = parse_comp(text);
+            if let Some(d) = component_case(&mut model, &tape, &ops, chunk, eofz, Some(&mut rep)) {
+                report_comp_failure(&mut model, &mut rep, &tape, &ops, chunk, eofz, d);
+            }
+        } else {
+            let c = parse_case(text);
+            if let Some(d) = run_case(&mut model, fixed, &c, Some(&mut rep)) {
+                report_failure(&mut model, &mut rep, fixed, &c, d);
+            }
+        }
+        return rep;
+    }
+
+    // 0. fixed regression cases: the empty tape and a request past the end
+    let corpus = [
+        "m128=0 tape=- ; req ff 1 8000 0010 -",
+        "m128=0 tape=- ; req ff 0 8000 0010 -",
+        "m128=0 tape=- ; req ff 1 8000 ff10 -",
+        "m128=0 tape=0300ff01fe ; req ff 1 8000 0001 - ; req ff 1 9000 0001 -",
+        "m128=1 tape=0300ff01fe ; req ff 0 8000 0001 h:01 ; req ff 0 9000 0001 -",
+    ];
+    for t in corpus {
+        let c = parse_case(t);
+        rep.count("cases", "corpus");
+        if let Some(d) = run_case(&mut model, fixed, &c, Some(&mut rep)) {
+            report_failure(&mut model, &mut rep, fixed, &c, d);
+        }
+    }
+
+    // 1. component level
+    let mut rng = Rng::new(o.seed ^ 0x0C10_0001);
+    for n in 0..o.n(300, 30_000) {
+        let mut r = rng.fork();
+        let (tape, blocks) = gen_tape(&mut r, o.thorough());
+        let mut ops = vec![];
+        for b in blocks.iter().chain(std::iter::once(&vec![])) {
+            ops.push((true, 0));
+            // full drain, partial drain (leftovers to skip), or byte-by-byte pieces
+            match r.below(4) {
+                0 => ops.push((false, b.len() + 2)),
+                1 => {
+                    if !b.is_empty() {
+                        ops.push((false, r.below(b.len() as u64 + 1) as usize));
+                    }
+                }
+                2 => {
+                    let mut left = b.len() + 1;
+                    while left > 0 {
+                        let k = (r.range(1, 200) as usize).min(left);
+                        ops.push((false, k));
+                        left -= k;
+                    }
+                }
+                _ => {}
+            }
+        }
+        ops.push((true, 0));
+        ops.push((false, 3));
+        let chunk = *r.pick(&[0usize, 0, 1, 7, 128]);
+        let eofz = r.bool();
+        rep.count("cases", "component");
+        if n < 1 {
+            rep.sample(J::s(truncate_text(&comp_text(&tape, &ops, chunk, eofz), 300)));
+        }
+        if let Some(d) = component_case(&mut model, &tape, &ops, chunk, eofz, Some(&mut rep)) {
+            report_comp_failure(&mut model, &mut rep, &tape, &ops, chunk, eofz, d);
+        }
+    }
+
+    // 2. system level
+    let mut rng = Rng::new(o.seed);
+    let target = o.n(1500, 200_000);
+    let mut nreq = 0u64;
+    let mut ncase = 0;
+    while nreq < target {
+        let mut r = rng.fork();
+        let c = gen_case(&mut r, o.thorough());
+        nreq += c.reqs.len() as u64;
+        ncase += 1;
+        rep.count("cases", if c.m128 { "system 128K" } else { "system 48K" });
+        for rq in &c.reqs {
+            rep.count("requests", if rq.load { "LOAD" } else { "VERIFY" });
+            rep.count("request_de", match rq.de { 0 => "0", 1 => "1", d if d >> 8 == 0xFF => "D=FF", _ => "n" });
+            rep.count("request_ix", if rq.ix < 0x4000 { "ROM" } else { "RAM" });
+        }
+        let (blocks, tail) = split_tape(&c.tape);
+        for b in &blocks {
+            rep.count("block_len", match b.len() { 0 => "0", 1 => "1", 2..=126 => "2-126", 127..=129 => "127-129", 130..=254 => "130-254", 255..=257 => "255-257", 258..=1000 => "258-1000", _ => ">1000" });
+        }
+        rep.count("tape_tail", match tail.len() { 0 => "none", 1 => "stray byte", _ => "truncated block" });
+        if ncase <= 2 {
+            rep.sample(J::s(truncate_text(&case_text(&c), 400)));
+        }
+        if let Some(d) = run_case(&mut model, fixed, &c, Some(&mut rep)) {
+            rep.count("disagreeing_cases", format!("{:?} {}", d.kind, d.key));
+            report_failure(&mut model, &mut rep, fixed, &c, d);
+        }
+    }
+    rep.extra.push(("system_cases".into(), J::I(ncase)));
+    rep.extra.push(("model_requests".into(), J::I(model.requests as i64)));
     rep
 }
